@@ -4,6 +4,8 @@
 //!                   (a) cascaded Transform::from_instance, (b) cascaded translate∘rotate∘reflect_vert,
 //!                   (c) Layout::flatten of a real nested library.
 //!  transform_pyth   S->I: one placement with a Pythagorean angle; half-unit tolerance on rational images.
+//!  transform_pyth2  S->I: Pythagorean angles at two levels of a hierarchy whose middle cell is instantiated three times;
+//!                   Layout::flatten against the exact rational images of MC_D4Pyth2.tla, every copy.
 use crate::util::*;
 use crate::CmdFn;
 use layout21raw as raw;
@@ -12,7 +14,7 @@ use raw::{Point, Transform, TransformTrait};
 use serde_json::{json, Value};
 
 pub fn commands() -> Vec<(&'static str, CmdFn)> {
-    vec![("transform_chain", transform_chain), ("transform_pyth", transform_pyth)]
+    vec![("transform_chain", transform_chain), ("transform_pyth", transform_pyth), ("transform_pyth2", transform_pyth2)]
 }
 
 struct Pl { loc: Point, r: bool, a: i64 }
@@ -153,6 +155,56 @@ fn transform_pyth(case: &Value) -> Value {
                 if mism.len() < 6 { mism.push(json!({"via":via,"p":[v[0],v[1]],"got":[gx,gy],"num":[v[2],v[3]],"den":d})); }
             }
         }
+    }
+    json!({"id": id(case), "outcome":"ok", "evals": n, "nmismatch": mism.len(), "mismatch": mism})
+}
+
+fn transform_pyth2(case: &Value) -> Value {
+    // {c1,s1,d1,r1,loc1, c2,s2,d2,r2,loc2, den, pts:[[x,y,numx,numy],...]}: image = loc2 + (numx/den, numy/den)
+    let pt = |k: &str| Point::new(case[k][0].as_i64().unwrap() as isize, case[k][1].as_i64().unwrap() as isize);
+    let (loc1, loc2) = (pt("loc1"), pt("loc2"));
+    let a1 = (geti(case, "s1") as f64).atan2(geti(case, "c1") as f64).to_degrees();
+    let a2 = (geti(case, "s2") as f64).atan2(geti(case, "c2") as f64).to_degrees();
+    let den = geti(case, "den");
+    let rows: Vec<Vec<i64>> = geta(case, "pts").iter().map(ivec).collect();
+    let mut layers = raw::Layers::default();
+    let lk = layers.add(raw::Layer::from_num(1));
+    // leaf: one polygon holding the kept grid points (the point list is what is transformed; its shape does not matter)
+    let mut leaf = raw::Layout::default();
+    leaf.name = "leaf".into();
+    leaf.elems.push(raw::Element { net: None, layer: lk, purpose: raw::LayerPurpose::Drawing,
+        inner: raw::Shape::Polygon(raw::Polygon { points: rows.iter().map(|v| Point::new(v[0] as isize, v[1] as isize)).collect() }) });
+    let leaf = Ptr::new(raw::Cell::from(leaf));
+    let mut mid = raw::Layout::default();
+    mid.name = "mid".into();
+    mid.insts.push(raw::Instance { inst_name: "c0".into(), cell: leaf.clone(), loc: loc1, reflect_vert: getb(case, "r1"), angle: Some(a1) });
+    let mid = Ptr::new(raw::Cell::from(mid));
+    // the middle cell three times: the same placement twice, and once shifted by a whole number of units
+    let shifts = [(0isize, 0isize), (0, 0), (-17, 31)];
+    let mut top = raw::Layout::default();
+    top.name = "top".into();
+    for (k, sh) in shifts.iter().enumerate() {
+        top.insts.push(raw::Instance { inst_name: format!("b{}", k), cell: mid.clone(), loc: Point::new(loc2.x + sh.0, loc2.y + sh.1),
+                                       reflect_vert: getb(case, "r2"), angle: Some(a2) });
+    }
+    let mut mism = Vec::new();
+    let mut n = 0;
+    match top.flatten() {
+        Ok(all) => {
+            if all.len() != shifts.len() { mism.push(json!({"via":"flatten","count":all.len()})); }
+            for (k, e) in all.iter().enumerate().take(shifts.len()) {
+                let got: Vec<Point> = match &e.inner { raw::Shape::Polygon(p) => p.points.clone(), _ => Vec::new() };
+                if got.len() != rows.len() { mism.push(json!({"via":"flatten","copy":k,"points":got.len()})); continue; }
+                for (v, g) in rows.iter().zip(got.iter()) {
+                    let gx = (g.x - loc2.x - shifts[k].0) as i64; let gy = (g.y - loc2.y - shifts[k].1) as i64;
+                    n += 1;
+                    if 2 * (den * gx - v[2]).abs() > den || 2 * (den * gy - v[3]).abs() > den {
+                        if mism.len() < 6 { mism.push(json!({"via":"flatten","copy":k,"p":[v[0],v[1]],"got":[gx,gy],"num":[v[2],v[3]],"den":den})); }
+                    }
+                }
+            }
+        }
+        Err(e) => mism.push(json!({"via":"flatten","err":err_str(e)})),
     }
     json!({"id": id(case), "outcome":"ok", "evals": n, "nmismatch": mism.len(), "mismatch": mism})
 }
